@@ -187,10 +187,12 @@ VARIABLES s, ev, out, h
 vars == <<s, ev, out, h>>
 
 Ev(a, x, k, w) == [a |-> a, x |-> x, k |-> k, w |-> w]
-InitHist == [ stoppedBefore |-> FALSE, joins |-> 0 ]
+InitHist == [ stoppedBefore |-> FALSE, joins |-> 0, firedDuring |-> FALSE ]
 UpdHist(hh, pre, e, r) ==
     [ stoppedBefore |-> pre.stop # "no",        \* this event found the member stopping or stopped
-      joins |-> hh.joins + Cardinality({i \in DOMAIN r.out : r.out[i][1] = "join"}) ]
+      joins |-> hh.joins + Cardinality({i \in DOMAIN r.out : r.out[i][1] = "join"}),
+      \* a delayed rejoin fired while the join now in progress was already running
+      firedDuring |-> IF pre.rj = "none" THEN FALSE ELSE hh.firedDuring \/ e.a = "RejoinFire" ]
 
 Init == s = InitState /\ ev = Ev("Init", 0, "", <<>>) /\ out = <<>> /\ h = InitHist
 
@@ -213,6 +215,12 @@ Spec == Init /\ [][Next]_vars
 Bound == TLCGet("level") <= MaxDepth /\ s.rtimers <= 2 /\ s.gen <= 7
 
 -----------------------------------------------------------------------------
+(* States worth steering the implementation into (TLC finds a shortest behaviour; see check_group.py) *)
+Goal_error_after_stale_timer == ev.a \in {"JoinErr", "SyncErr"} /\ ev.k = "rebalance" /\ h.firedDuring
+Goal_stop_during_prepare == ev.a = "Stop" /\ s.rj = "prepare" /\ Len(s.closing) = 2
+Goal_evicted_as_leader == ev.a = "HbErr" /\ ev.k = "illegal" /\ Len(s.cons) = 0 /\ h.joins >= 2
+Goal_consumer_error_during_join == ev.a = "CErr" /\ s.rj \in {"coord", "meta"}
+
 (* Property clauses *)
 Has(o, tag) == \E i \in DOMAIN o : o[i][1] = tag
 GroupRequests == {"coord", "join", "sync", "hb"}      \* (topic metadata loads are not group requests)
